@@ -37,6 +37,14 @@ def gen_cases(tier, seed):
         if i % 5 == 0:
             for col in c["frame"]["cols"]:
                 col["vals"] = "small"
+        if i % 7 == 3:
+            # text / binary columns holding only long values with long common prefixes
+            for col in c["frame"]["cols"]:
+                if col["kind"] in ("str", "ostr", "bytes"):
+                    col["vals"] = "long"
+            if not any(col["kind"] in ("str", "ostr", "bytes") for col in c["frame"]["cols"]):
+                c["frame"]["cols"].append({"name": "longtext", "kind": ["str", "ostr", "bytes"][i % 3], "nulls": "p20", "vals": "long"})
+            c["opts"]["stats"] = True
         cases.append(c)
     return cases
 
